@@ -110,7 +110,10 @@ theorem getEnum_fuel {views : Nat → Option FileView} {K : List (Nat × Bytes)}
                 cases hr : td.ref with
                 | none =>
                   simp only
-                  exact getEnum_fuel hK fuel _ j td.rootName hnd' hsub' hlt'
+                  by_cases hcm : inCategoryMap td.rootName = true
+                  · rw [if_pos hcm]; simp
+                  · rw [if_neg hcm]
+                    exact getEnum_fuel hK fuel _ j td.rootName hnd' hsub' hlt'
                 | some r =>
                   simp only
                   cases hi : v.incs[r.index]? with
